@@ -22,7 +22,7 @@ PROPS = {
     "C03": xmlvocab.ALL + [round4.opt_default, round4.tagid_pad, round4.tagid_discriminator, codecs.ttprogram_push, design.filename_rules, tables.glyf_component, codecs.tag_ident, codecs.f22_fixed_tools, otl.f2_conv_pair, tables.pair_exhaustive] + _generic(("ttLib/tables/", "cffLib/__init__.py", "misc/xmlWriter.py", "misc/xmlReader.py", "ttLib/ttFont.py", "ttx.py")),
     "C04": [round4.head_patch_guard, tables.hmtx_trimming, tables.spec_layouts, container.f10_dep_order, container.container_constants, container.alignment, container.directory_and_checksums, container.f22_recalc_twins, container.checksum_twins, container.woff2_close_order, codecs.f5_triplets, codecs.f5_halved_offsets, tables.woff_discriminator, consistency.unpack_order] + _generic(("ttLib/sfnt.py", "ttLib/woff2.py", "ttLib/ttFont.py", "ttLib/ttCollection.py")),
     "C06": otl.C06 + [consistency.numbered_twins] + _generic(("ttLib/tables/otTables.py", "ttLib/tables/otBase.py", "otlLib/")),
-    "C07": exhaust.ALL_C07 + [round4.mark_siblings, codecs.f5_rebias, merge.subset_context_helper, tables.composite_walkers, exhaust.c07_index_remap, exhaust.c07_closure_registry, consistency.key_fields, _scoped(fea.argswap_scope, scope=("subset/",), rule="F21"), _scoped(exhaust.f19_varidx, scope=("subset/",), rule="F19"), _scoped(determinism.f12_set_order, scope=("subset/",), rule="F12-subset")] + _generic(("subset/",)),
+    "C07": exhaust.ALL_C07 + [cff.width_bottom, round4.mark_siblings, codecs.f5_rebias, merge.subset_context_helper, tables.composite_walkers, exhaust.c07_index_remap, exhaust.c07_closure_registry, consistency.key_fields, _scoped(fea.argswap_scope, scope=("subset/",), rule="F21"), _scoped(exhaust.f19_varidx, scope=("subset/",), rule="F19"), _scoped(determinism.f12_set_order, scope=("subset/",), rule="F12-subset")] + _generic(("subset/",)),
     "C08": exhaust.ALL_C08 + [design.transparent_flatten, exhaust.c08_distance_carry, consistency.key_fields, _scoped(fea.argswap_scope, scope=("varLib/instancer/",), rule="F21"), _scoped(exhaust.f19_varidx, scope=("varLib/instancer/",), rule="F19"), _scoped(determinism.f12_set_order, scope=("varLib/instancer/",), rule="F12-instancer")] + _generic(("varLib/instancer/", "varLib/mutator.py")),
     "C10": design.C10 + [_scoped(fea.argswap_scope, scope=("varLib/__init__.py", "varLib/merger.py", "varLib/cff.py", "varLib/models.py", "varLib/varStore.py"), rule="F21"), _scoped(exhaust.f19_varidx, scope=("varLib/__init__.py", "varLib/merger.py", "varLib/cff.py", "varLib/varStore.py", "varLib/featureVars.py"), rule="F19"), _scoped(determinism.f12_set_order, scope=("varLib/__init__.py", "varLib/merger.py", "varLib/models.py", "varLib/cff.py", "varLib/featureVars.py", "varLib/varStore.py", "varLib/builder.py", "varLib/stat.py", "varLib/avar/"), rule="F12-varlib")] + _generic(("varLib/__init__.py", "varLib/merger.py", "varLib/models.py", "varLib/cff.py", "varLib/featureVars.py", "varLib/varStore.py", "varLib/builder.py", "ttLib/tables/_g_l_y_f.py", "ttLib/tables/_g_v_a_r.py")),
     "C11": fea.ALL + [otl.coverage_ranges, _scoped(exhaust.f19_varidx, scope=("feaLib/",), rule="F19"), _scoped(determinism.f12_set_order, scope=("feaLib/", "otlLib/"), rule="F12-fea")] + _generic(("feaLib/", "otlLib/")),
